@@ -83,13 +83,20 @@ for op in ops:
         if os.path.lexists(op[1]): os.remove(op[1])
     elif op[0] == "rename":
         if os.path.lexists(op[1]): os.rename(op[1], op[2])
-sys.stdout.write(sys.argv[2]); sys.stderr.write(sys.argv[3])
-sys.exit(int(sys.argv[4]))
+    elif op[0] == "crlf":
+        if os.path.isfile(op[1]):
+            data = open(op[1], "rb").read()
+            new = data.replace(b"\r\n", b"\n").replace(b"\n", b"\r\n") if b"\n" in data else data + b"\r"
+            open(op[1], "wb").write(new)
+sys.stdout.write(sys.argv[2] * (int(sys.argv[5]) if len(sys.argv) > 5 else 1)); sys.stdout.flush()
+sys.stderr.write(sys.argv[3])
+sys.stderr.flush()
+os._exit(int(sys.argv[4]))
 '''
 
 
-def command_for(ops, out="", err="", rc=0):
-    return [sys.executable, "-c", OPS_RUNNER, json.dumps(ops), out, err, str(rc)]
+def command_for(ops, out="", err="", rc=0, repeat=1):
+    return [sys.executable, "-c", OPS_RUNNER, json.dumps(ops), out, err, str(rc)] + ([str(repeat)] if repeat != 1 else [])
 
 
 def apply_ops(root, ops):
@@ -114,7 +121,7 @@ def gen_chain(rng, opts=None):
     nsteps = opts.get("nsteps") or rng.choice([1, 2, 2, 3, 4])
     steps = []
     simple = opts.get("simple_recording", rng.random() < 0.6)
-    common = {"exclude_patterns": None, "lstrip_paths": None, "base_path": None, "normalize_line_endings": False}
+    common = {"exclude_patterns": None, "lstrip_paths": None, "base_path": None, "normalize_line_endings": False, "paths": None}
     if not simple:
         common["exclude_patterns"] = rng.choice([None, ["*.log", "*.link*"], ["out", "*.link*"], ["*.pyc", "build.log", "*.link*"],
                                                  ["/build", "*.link*"], ["/build", "*.link*"]])
@@ -128,6 +135,9 @@ def gen_chain(rng, opts=None):
             spec["checkout"] = ("d", {"vendor": ("d", {"x.c": ("f", b"x")}), "app.c": ("f", b"app")})
             spec["vendor"] = ("d", {"y.c": ("f", b"y")})
             common["lstrip_paths"] = rng.choice([["checkout/", "vendor/"], ["vendor/", "checkout/"], ["checkout/"]])
+        if rng.random() < 0.3 and not common["lstrip_paths"]:
+            # an explicit list of paths; the first one does not exist (yet): it is skipped, the others are still recorded
+            common["paths"] = ["dist-later", "src", "README"]
     files = regular_files(spec)
     for i in range(nsteps):
         ops = gen_ops(rng, files)
@@ -140,13 +150,17 @@ def gen_chain(rng, opts=None):
                 files.remove(op[1])
                 files.append(op[2])
         st = {"name": "step%d" % i, "ops": ops, "key": i % 6,
-              "out": rng.choice(["", "built\n", "é\r\n", "progress 10%\rprogress 100%\r", "a\r", "tail é"]),
+              "out": rng.choice(["", "built\n", "é\r\n", "progress 10%\rprogress 100%\r", "a\r", "tail é",
+                                 "BURST"]),      # replaced below: a burst of ~1.5 MB written right before exiting
               "err": rng.choice(["", "warn\n", "é!\n", "e1\re2"]),
               "rc": 0 if rng.random() < 0.9 else rng.choice([1, 3]),
               "record_streams": rng.random() < 0.5, "use_dsse": opts.get("dsse", rng.random() < 0.4),
               "compact_json": rng.random() < 0.3, "record_environment": rng.random() < 0.3,
               "metadata_directory": rng.random() < 0.25, "two_phase": rng.random() < opts.get("p_two_phase", 0.25),
               "no_command": False}
+        st["out_repeat"] = 1
+        if st["out"] == "BURST":
+            st["out"], st["out_repeat"] = "0123456789abcde\n" * 64, 700         # 1 KiB x 700
         if rng.random() < 0.08:
             st["no_command"], st["ops"] = True, []
         st.update(common)
@@ -169,10 +183,10 @@ def _record(paths, st):
 def _snap(st):
     """deferred recording of the current directory by the proved recorder model + the implementation's own as fallback"""
     from harness import modelrec
-    return {"deferred": modelrec.snapshot(".", ["."], exclude_patterns=st["exclude_patterns"], base_path=st["base_path"],
+    return {"deferred": modelrec.snapshot(".", st.get("paths") or ["."], exclude_patterns=st["exclude_patterns"], base_path=st["base_path"],
                                           lstrip_paths=st["lstrip_paths"], normalize_line_endings=st["normalize_line_endings"],
                                           follow_symlink_dirs=True),
-            "impl": _record(["."], st)}
+            "impl": _record(st.get("paths") or ["."], st)}
 
 
 def resolve_records(model, recs):
@@ -227,11 +241,12 @@ def run_step(project, linkdir, st, tamper=None):
     import in_toto.runlib as rl
     from in_toto.models.metadata import Metadata
     key = hk.sslib_key(st.get("family", "ed25519"), st["key"])
-    cmd = [] if st["no_command"] else command_for(st["ops"], st["out"], st["err"], st["rc"])
+    cmd = [] if st["no_command"] else command_for(st["ops"], st["out"], st["err"], st["rc"], st.get("out_repeat", 1))
     mdir = linkdir if st["metadata_directory"] else None
     rkw = dict(exclude_patterns=st["exclude_patterns"], base_path=st["base_path"],
                normalize_line_endings=st["normalize_line_endings"], lstrip_paths=st["lstrip_paths"])
     rec = {"name": st["name"], "keyid": key.keyid}
+    paths = st.get("paths") or ["."]
     with fstree.in_dir(project), quiet():
         before_listing = set(os.listdir("."))
         rec["mat_before"] = _snap(st)
@@ -239,14 +254,14 @@ def run_step(project, linkdir, st, tamper=None):
         rec["two_phase"] = bool(st["two_phase"] and not st["no_command"])
         try:
             if rec["two_phase"]:
-                rl.in_toto_record_start(st["name"], ["."], signer=key.signer, record_environment=st["record_environment"],
+                rl.in_toto_record_start(st["name"], paths, signer=key.signer, record_environment=st["record_environment"],
                                         use_dsse=st["use_dsse"], **rkw)
                 rec["unfinished_after_start"] = sorted(f for f in os.listdir(".") if f.endswith(".link-unfinished"))
                 subprocess.run(cmd, check=False, stdout=subprocess.DEVNULL, stderr=subprocess.DEVNULL)
-                rl.in_toto_record_stop(st["name"], ["."], signer=key.signer, command=cmd, metadata_directory=mdir, **rkw)
+                rl.in_toto_record_stop(st["name"], paths, signer=key.signer, command=cmd, metadata_directory=mdir, **rkw)
                 md = None  # record_stop returns nothing: the file is read below
             else:
-                md = rl.in_toto_run(st["name"], ["."], ["."], cmd, record_streams=st["record_streams"], signer=key.signer,
+                md = rl.in_toto_run(st["name"], paths, paths, cmd, record_streams=st["record_streams"], signer=key.signer,
                                     compact_json=st["compact_json"], record_environment=st["record_environment"],
                                     metadata_directory=mdir, use_dsse=st["use_dsse"], **rkw)
             rec["exc"] = None
@@ -341,7 +356,7 @@ def sign_layout(layout, owner, dsse=False):
     return md
 
 
-def verify_chain(ctx, layout_md, owner, project, linkdir, extra_rows=()):
+def verify_chain(ctx, layout_md, owner, project, linkdir, extra_rows=(), params=None):
     """real in_toto_verify with cwd = a copy of the project tree (the final product) + the model's verify on the same
     files.  Returns (impl outcome, model request)."""
     import in_toto.runlib
@@ -373,7 +388,8 @@ def verify_chain(ctx, layout_md, owner, project, linkdir, extra_rows=()):
         with fstree.in_dir(final), quiet():
             md = Metadata.load(rootpath)
             try:
-                summary = vl.in_toto_verify(md, {owner.keyid: copy.deepcopy(owner.pub)}, link_dir_path=linkdir)
+                summary = vl.in_toto_verify(md, {owner.keyid: copy.deepcopy(owner.pub)}, link_dir_path=linkdir,
+                                            substitution_parameters=copy.deepcopy(params))
                 import attr
                 out = {"ok": attr.asdict(summary)}
             except Exception as e:  # noqa
@@ -399,6 +415,6 @@ def verify_chain(ctx, layout_md, owner, project, linkdir, extra_rows=()):
         if m not in msgs:
             msgs.append(m)
         rows.append([tok, val, msgs.index(m)])
-    req = {"root": scen["root"], "dir": tree, "keys": scen["keys"], "params": None, "now_us": vscen.NOW_US, "now_s": 0,
+    req = {"root": scen["root"], "dir": tree, "keys": scen["keys"], "params": params, "now_us": vscen.NOW_US, "now_s": 0,
            "b64": b64, "loads": loads, "sigs": rows, "msgs": msgs, "exec": exec_table}
     return out, req
